@@ -286,6 +286,28 @@ func runUFCase(raw json.RawMessage, w *TraceWriter) {
 			tree = ufTreeJSON(fs, seeds)
 		}
 		w.Ev("uf_conv", "api", api, "in", projectBytes(in, seeds), "ok", ok, "tree", Raw(tree), "panic", panicked)
+		// once more with the span-cache allocator on (string leaves take another allocation path)
+		func() {
+			thrift.SetSpanCache(true)
+			defer thrift.SetSpanCache(false)
+			var fs2 []uf.UnknownField
+			var err2 error
+			pan2 := false
+			func() {
+				defer func() {
+					if p := recover(); p != nil {
+						pan2 = true
+					}
+				}()
+				fs2, err2 = uf.ConvertUnknownFields(in)
+			}()
+			ok2 := err2 == nil && !pan2
+			tree2 := "[]"
+			if ok2 {
+				tree2 = ufTreeJSON(fs2, seeds)
+			}
+			w.Ev("uf_conv", "api", "convert-spancache", "in", projectBytes(in, seeds), "ok", ok2, "tree", Raw(tree2), "panic", pan2)
+		}()
 		return fs, ok
 	}
 	write := func(fs []uf.UnknownField) []byte {
